@@ -567,18 +567,18 @@ def target_values(rng, level, docs):
             "min_docfreq": (dcounts[g], nd), "max_docfreq": (max(tdcounts[t] for t in toks), nd)}
 
 
-def table_case(rng, i, stage, dp, tp, single=False):
+def table_case(rng, i, stage, dp, tp, single=False, rot=None):
     """One case of the table: document-bound pattern dp, (min side, max side) token-bound pattern tp.  single: the
     case has exactly one bound (second block of the table) — no other pruning parameter; a lone maximum on the
     n-gram stage can only bite through n-grams of the mask, so: mask mode and a bound below the commonest tokens."""
     single_max = single and stage == "ngram" and (any(b.startswith("max") for b in dp) or tp[1] is not None)
     docs, vocab = table_docs(rng, phrases=(stage == "ngram" and rng.random() < 0.5))
     if stage == "unigram":
-        entry = UNIGRAM_ROTATION[i % len(UNIGRAM_ROTATION)]
+        entry = UNIGRAM_ROTATION[(i if rot is None else rot) % len(UNIGRAM_ROTATION)]
         step = shape_step(rng, entry, docs, vocab)
         ng, level = None, step["docs"]
     else:
-        entry, gn, beh = NGRAM_ROTATION[i % len(NGRAM_ROTATION)]
+        entry, gn, beh = NGRAM_ROTATION[(i if rot is None else rot) % len(NGRAM_ROTATION)]
         ng = {"n": gn, "behaviour": beh}
         step = shape_step(rng, entry, docs, vocab)
         level = [py_ngrams(d, gn, beh) for d in step["docs"]]
@@ -638,8 +638,8 @@ def table_cases(rng, reps):
     occurrences / frequency / both (consistent), for unigram vocabularies through the eight single-stage entry points
     in rotation and — 'both' excluded, see gen_case — for n-gram vocabularies; bound values on the boundaries of the
     counts of the stage they bite on: around one target item that survives the combination (70 %), or drawn
-    independently.  Block 2: each of the eight bounds as the ONLY constraint, several corpora each, both stages (a
-    bound that one code path forgets when it stands alone shows here)."""
+    independently.  Block 2: each of the eight bounds as the ONLY constraint, through every entry point, both stages
+    (a bound that one code path forgets when it stands alone shows here)."""
     out, i = [], 0
     for rep in range(reps):
         for stage in ("unigram", "ngram"):
@@ -649,13 +649,17 @@ def table_cases(rng, reps):
                         continue
                     i += 1
                     out.append(table_case(rng, i, stage, dp, tp))
-            for rep2 in range(2 if stage == "unigram" else 6):
-                for b in DOC_BOUNDS:
-                    i += 1
-                    out.append(table_case(rng, i, stage, (b,), (None, None), single=True))
-                for tp in ((("occ", None), (None, "occ"), ("freq", None), (None, "freq"))):
-                    i += 1
-                    out.append(table_case(rng, i, stage, (), tp, single=True))
+            # block 2: every entry point x each bound alone (each preprocess_* copy and each vectorizer decides on its
+            # own whether document frequencies are computed)
+            rotation = UNIGRAM_ROTATION if stage == "unigram" else NGRAM_ROTATION
+            for rot in range(len(rotation)):
+                for rep2 in range(1 if stage == "unigram" else 2):
+                    for b in DOC_BOUNDS:
+                        i += 1
+                        out.append(table_case(rng, i, stage, (b,), (None, None), single=True, rot=rot))
+                    for tp in ((("occ", None), (None, "occ"), ("freq", None), (None, "freq"))):
+                        i += 1
+                        out.append(table_case(rng, i, stage, (), tp, single=True, rot=rot))
     return out
 
 
